@@ -138,6 +138,32 @@ pub fn new(parameters: &RawParameters, ctx: &dyn Context) -> Result<Op, Error> {
     let inv = InnerOp(pipeline_inv);
     let descriptor = OpDescriptor::new(definition, fwd, Some(inv));
     let id = OpHandle::new();
+    #[cfg(geodesy_verif)]
+    crate::verif::emit(
+        "built",
+        vec![
+            ("id", format!("{:?}", id)),
+            ("def", definition.clone()),
+            (
+                "steps",
+                steps
+                    .iter()
+                    .map(|s| {
+                        format!(
+                            "{:?};{};{};{};{};{}",
+                            s.id,
+                            s.params.name,
+                            s.descriptor.inverted,
+                            s.descriptor.invertible,
+                            s.params.boolean("omit_fwd"),
+                            s.params.boolean("omit_inv")
+                        )
+                    })
+                    .collect::<Vec<_>>()
+                    .join("|"),
+            ),
+        ],
+    );
     Ok(Op {
         descriptor,
         params,
